@@ -218,10 +218,7 @@ func (r *runner) opMetadata(i int, o *op) {
 		ver = 8
 	}
 	// brokers
-	var ids []int32
-	for id := int32(1); int(id) <= r.m.c.Brokers; id++ {
-		ids = append(ids, id)
-	}
+	ids := r.m.c.ids()
 	gotB := append([]kafka.Broker{}, res.Brokers...)
 	sort.Slice(gotB, func(a, b int) bool { return gotB[a].ID < gotB[b].ID })
 	if d, _ := r.diffBrokers(what, "Brokers", gotB, ids); d != "" {
